@@ -221,10 +221,13 @@ impl TransformerContext {
         // TODO: this logic is duplicated in `impl EventGen for SvgElement` so
         // it works in both '^' contexts and root SVG bbox generation context.
         // Can't just move this to SvgElement::bbox() as it needs ElementMap.
-        if let (Some(clip_path), Some(ref mut bbox)) = (el.get_attr("clip-path"), &mut el_bbox) {
-            let clip_id = extract_urlref(&clip_path).ok_or(SvgdxError::InvalidData(format!(
-                "Invalid clip-path attribute: {clip_path}"
-            )))?;
+        // Only a `url(#id)` value refers to a clipPath element; `none`, `inherit`
+        // and basic shapes are valid values which don't affect the bounding box.
+        if let (Some(clip_id), Some(ref mut bbox)) = (
+            el.get_attr("clip-path")
+                .and_then(|url| extract_urlref(&url)),
+            &mut el_bbox,
+        ) {
             let clip_el = self
                 .get_element(&clip_id)
                 .ok_or_else(|| SvgdxError::ReferenceError(clip_id.clone()))?;
